@@ -117,7 +117,10 @@ def check(rec: Rec, cc, bank, branch, account, origin):
 
 
 def replay(rec, case):
+    import random
     i = case["input"]
+    if "touch" in i.get("origin", ""):
+        touch(i["cc"], random.Random(0))      # the case was observed after other uses of the country in the same process
     check(rec, i["cc"], i["bank_code"], i["branch_code"], i["account_code"], i.get("origin", "replay"))
 
 
@@ -136,7 +139,14 @@ def conforming(rng, classes, n):
 def draw_component(rng, fi, k, wother):
     a, e, cl = fi[k]
     w = e - a
-    mode = rng.choice(["fit", "fit", "short", "short", "long", "combined", "ws", "alien", "empty", "zero"])
+    mode = rng.choice(["fit", "fit", "short", "short", "long", "combined", "ws", "alien", "empty", "zero", "ws-only", "lengthening"])
+    if mode == "ws-only":
+        return mode, rng.choice([" ", "\t", "\xa0", " \n ", "  "])
+    if mode == "lengthening":
+        # a character whose upper-case form is longer (sharp s -> SS, ligatures ...), at exactly the field's width
+        v = conforming(rng, cl, max(1, w))
+        i = rng.randrange(len(v))
+        return mode, v[:i] + rng.choice(["\u00df", "\ufb01", "\u0149", "\ufb03", "\u01f0"]) + v[i + 1:]
     if mode == "fit":
         return mode, conforming(rng, cl, w)
     if mode == "short":
@@ -159,6 +169,26 @@ def draw_component(rng, fi, k, wother):
     return mode, ""
 
 
+def touch(cc, rng):
+    """Other uses of the same country in this process (results may not depend on history, C15): parse a valid IBAN, read all
+    accessors and lookups, draw a random one. Exceptions are irrelevant here."""
+    from random import Random
+    from ..lib import BBAN, IBAN
+    from ..oracles.core import COMPONENTS
+    o = oracle()
+    if cc not in o.table:
+        return
+    try:
+        i = IBAN(gen().iban(cc, rng), validate_bban=True)
+        for k in COMPONENTS:
+            getattr(i, k), getattr(i.bban, k)
+        i.bic, i.bank, i.bank_name, i.formatted, i.is_valid, i.in_sepa_zone
+        BBAN(cc, str(i.bban)).bank_code
+        IBAN.random(cc, random=Random(1))
+    except Exception:  # noqa: BLE001
+        pass
+
+
 def shard(arg):
     cc, seed, tier = arg
     import random
@@ -168,6 +198,12 @@ def shard(arg):
     o = oracle()
     known = cc in o.table and bool(o.positions(cc))
     if not known:
+        for phase in ("fresh", "touched"):
+            if phase == "touched":
+                touch(cc, rng)
+            for b, r, a in (("", "", ""), (" ", "", ""), ("", "", "0"), ("0", "", "")):
+                res, exp = check(rec, cc, b, r, a, f"no-positions-{phase}")
+                rec.case("unknown-or-no-positions", (cc, b, r, a, phase))
         for _ in range(20):
             b, r, a = (conforming(rng, "n" * 8, rng.randrange(0, 9)) for _ in range(3))
             res, exp = check(rec, cc, b, r, a, "no-positions")
@@ -193,6 +229,11 @@ def shard(arg):
                  (cc, b, r, a) if nt else None,
                  {"cc": cc, "bank_code": b, "branch_code": r, "account_code": a, "outcome": res})
     rec.exhaustive.append("grid of width classes {0,1,w-1,w,w+1,w+5,combined} per component, per country")
+    touch(cc, rng)
+    # after other uses of the country (parsing, accessor reads, lookups, random draws): empty / whitespace-only components again
+    for b, r, a in (("", "", ""), (" ", "", "\t"), ("", "", "1"), ("1", "", "")):
+        res, exp = check(rec, cc, b, r, a, "after-touch")
+        rec.case("after-touch-" + res, (cc, b, r, a, "touched"))
     for _ in range(60 if tier == "quick" else 2500):
         mb, b = draw_component(rng, fi, "bank_code", w["branch_code"])
         mr, r = draw_component(rng, fi, "branch_code", 0)
@@ -265,4 +306,4 @@ def run(ctx):
     ctx.extra["countries_with_positions"] = len(with_pos)
     ctx.extra["success_per_country_min"] = min(ctx.rec.classes.get(f"success-{cc}", 0) for cc in with_pos)
     ctx.require_classes("grid-overlong", "grid-split", "grid-ok", "draw-ok", "draw-err-overlong", "unknown-or-no-positions",
-                        "component-alien", "component-ws", "hyp-ok", *[f"success-{cc}" for cc in with_pos])
+                        "component-alien", "component-ws", "component-ws-only", "component-lengthening", "after-touch-ok", "after-touch-err", "hyp-ok", *[f"success-{cc}" for cc in with_pos])
